@@ -256,15 +256,15 @@ func init() {
 		o := in.newObj(&StructV{[]Value{StrV("<fmt.Errorf>")}}, "fmt.Errorf")
 		return IfaceV{typ: in.w.errorStringPtrType(), val: PtrV{obj: o}}
 	})
-	def("sort.Ints", "sorting network (compare-exchange with ite) — any correct sort yields the same multiset in order", func(in *Interp, a []Value) Value {
+	def("sort.Ints", "insertion sort forking on undecided comparisons — any correct sort yields the same sequence of values", func(in *Interp, a []Value) Value {
 		in.sortScalars(a[0].(SliceV), func(x, y *Term) *Term { return in.ts.SLt(y, x) })
 		return nil
 	})
-	def("sort.Float64s", "sorting network (compare-exchange with ite); NaN-free inputs assumed by the harness", func(in *Interp, a []Value) Value {
+	def("sort.Float64s", "insertion sort forking on undecided comparisons; NaN-free inputs assumed by the harness", func(in *Interp, a []Value) Value {
 		in.sortScalars(a[0].(SliceV), func(x, y *Term) *Term { return in.ts.FLt(y, x) })
 		return nil
 	})
-	def("sort.Slice", "sorting network over the slice calling the real less closure; result is a permutation sorted by less", func(in *Interp, a []Value) Value {
+	def("sort.Slice", "the standard library's insertion sort on the real slice, calling the real less closure and forking on its symbolic results; result is a permutation sorted by less", func(in *Interp, a []Value) Value {
 		in.sortSlice(a[0].(IfaceV), a[1].(FuncV))
 		return nil
 	})
@@ -301,7 +301,10 @@ func (in *Interp) mathMaxMin(x, y *Term, isMax bool) Value {
 	return ts.Ite(nan, ts.F64C(math.NaN()), ts.Ite(bothZero, zr, pick))
 }
 
-// sortScalars sorts a slice of scalar terms in place with an odd-even transposition network.
+// sortScalars sorts a slice of scalar terms in place by insertion sort, forking on every comparison
+// whose outcome the path condition does not decide. The elements themselves stay untouched (no ite
+// networks), so later reasoning about the multiset of elements is syntactic. Any correct sort yields
+// the same sequence of values, so this is a faithful model of sort.Ints / sort.Float64s.
 func (in *Interp) sortScalars(s SliceV, swapIf func(x, y *Term) *Term) {
 	n := int(in.constU(s.len, "sort length"))
 	if n < 2 {
@@ -311,19 +314,20 @@ func (in *Interp) sortScalars(s SliceV, swapIf func(x, y *Term) *Term) {
 	arr := in.backing(s)
 	e := make([]Value, len(arr.e))
 	copy(e, arr.e)
-	for round := 0; round < n; round++ {
-		for i := round % 2; i+1 < n; i += 2 {
-			a, b := e[off+i].(*Term), e[off+i+1].(*Term)
-			c := swapIf(a, b) // true: out of order
-			e[off+i] = in.ts.Ite(c, b, a)
-			e[off+i+1] = in.ts.Ite(c, a, b)
+	for i := 1; i < n; i++ {
+		for j := i; j > 0; j-- {
+			a, b := e[off+j-1].(*Term), e[off+j].(*Term)
+			if !in.p.Branch(swapIf(a, b)) { // a > b ?
+				break
+			}
+			e[off+j-1], e[off+j] = b, a
 		}
 	}
 	in.store(s.base, &ArrayV{e})
 }
 
-// sortSlice implements sort.Slice(x, less) with a network; less is the real closure (it reads the
-// slice through its captured variable, so elements are written back before every comparison).
+// sortSlice implements sort.Slice(x, less) as the insertion sort of the standard library, calling
+// the real less closure on the real slice and forking on its symbolic results.
 func (in *Interp) sortSlice(x IfaceV, less FuncV) {
 	s, ok := x.val.(SliceV)
 	if !ok {
@@ -334,24 +338,16 @@ func (in *Interp) sortSlice(x IfaceV, less FuncV) {
 		return
 	}
 	off := int(in.constU(s.off, "sort offset"))
-	for round := 0; round < n; round++ {
-		for i := round % 2; i+1 < n; i += 2 {
-			c := in.callFunc(less, []Value{in.ts.BV(64, uint64(i+1)), in.ts.BV(64, uint64(i))}, nil).(*Term)
+	for i := 1; i < n; i++ {
+		for j := i; j > 0; j-- {
+			c := in.callFunc(less, []Value{in.ts.BV(64, uint64(j)), in.ts.BV(64, uint64(j-1))}, nil).(*Term)
+			if !in.p.Branch(c) {
+				break
+			}
 			arr := in.backing(s)
 			e := make([]Value, len(arr.e))
 			copy(e, arr.e)
-			a, b := arr.e[off+i], arr.e[off+i+1]
-			m1, ok1 := in.mergeVal(c, b, a)
-			m2, ok2 := in.mergeVal(c, a, b)
-			if !ok1 || !ok2 {
-				// not mergeable: fork on the comparison
-				if in.p.Branch(c) {
-					m1, m2 = b, a
-				} else {
-					m1, m2 = a, b
-				}
-			}
-			e[off+i], e[off+i+1] = m1, m2
+			e[off+j-1], e[off+j] = arr.e[off+j], arr.e[off+j-1]
 			in.store(s.base, &ArrayV{e})
 		}
 	}
